@@ -481,6 +481,19 @@ pub fn convert_result(r: Result<(http::request::Parts, Bytes, scratchstack_aws_s
     }
 }
 
+thread_local! {
+    static POLL_BUDGET: std::cell::Cell<u32> = const { std::cell::Cell::new(100_000) };
+}
+
+/// Run `f` with the validation futures started inside it polled at most `n` times and then DROPPED
+/// (a caller that gives up: timeout, client disconnect); such a validation is reported as `Res::Hang`.
+pub fn with_poll_budget<T>(n: u32, f: impl FnOnce() -> T) -> T {
+    let old = POLL_BUDGET.with(|b| b.replace(n));
+    let r = f();
+    POLL_BUDGET.with(|b| b.set(old));
+    r
+}
+
 fn validate_with<S: SignedHeaderRequirements>(
     http_req: http::Request<Bytes>,
     cfg: &ServerConfig,
@@ -492,10 +505,11 @@ fn validate_with<S: SignedHeaderRequirements>(
     // all three body conversions of the public API are exercised, chosen deterministically from the request
     let body_len = http_req.body().len();
     let selector = (http_req.uri().to_string().len() + http_req.headers().len() + body_len) % 3;
+    let budget = POLL_BUDGET.with(|b| b.get());
     let r = catch_unwind(AssertUnwindSafe(|| match selector {
-        0 if body_len == 0 => block_on(sigv4_validate_request(http_req.map(|_| ()), &cfg.region, &cfg.service, prov, now, reqs, opts), 100_000),
-        1 => block_on(sigv4_validate_request(http_req.map(|b| b.to_vec()), &cfg.region, &cfg.service, prov, now, reqs, opts), 100_000),
-        _ => block_on(sigv4_validate_request(http_req, &cfg.region, &cfg.service, prov, now, reqs, opts), 100_000),
+        0 if body_len == 0 => block_on(sigv4_validate_request(http_req.map(|_| ()), &cfg.region, &cfg.service, prov, now, reqs, opts), budget),
+        1 => block_on(sigv4_validate_request(http_req.map(|b| b.to_vec()), &cfg.region, &cfg.service, prov, now, reqs, opts), budget),
+        _ => block_on(sigv4_validate_request(http_req, &cfg.region, &cfg.service, prov, now, reqs, opts), budget),
     }));
     match r {
         Err(p) => {
